@@ -12,7 +12,7 @@ CHECKS = {
     ),
     "C02": (
         "exploration",
-        "Real worker threads of the parallel executors run under a scripted claim controller (hook H1): a seeded tape decides which parked worker claims each (instance, shard) work unit, for 1..8 (thorough: up to 32) workers and all five execution policies; every schedule must commit bit-identically to the 1-worker run and to the reference model. Seeded search over assignments (drawn without replacement when the space is tiny); not exhaustive.",
+        "Real worker threads of the parallel executors run under a scripted claim controller (hook H1): a seeded tape decides which parked worker claims each (instance, shard) work unit, for 1..8 (thorough: up to 32) workers on the engine path and 1..32 workers under all five execution policies, with scopes spread over all 256 virtual shards and programs that may write one location twice (the tick must then be refused under every schedule); every schedule must commit bit-identically to the 1-worker run and to the reference model. Seeded search over assignments (drawn without replacement when the space is tiny); not exhaustive.",
         "Assumes workers share only the atomic claim counter (crate forbids unsafe), so every observable interleaving is a claim order; the controller reports baton overlap as a harness error.",
         "deterministic simulation: controlled thread scheduling (seeded claim tapes over real threads), equality with serial baseline",
         "DESIGN.md §5 C02",
@@ -68,8 +68,8 @@ CHECKS = {
     ),
     "C11": (
         "fault_enumeration",
-        "Logs produced by crash-free C10 workloads (1-12 transactions, ledger, optional manifest) damaged on a copy by one explicit plan entry each: bit flips, aligned zeroing, truncation plus garbage, in-record payload flips with and without recomputed outer digest, record and transaction delete / duplicate / adjacent swap, cross-log record and transaction transplants from a donor log generated in the same scenario, ledger and manifest flips and substitution. Oracle on recover_wal_segment_bytes, recover_filesystem_store (both modes), doctor_filesystem_store, validate_filesystem_manifest and TrustedRuntimeHost::enable_runtime_wal: typed error / obstruction, or Ok with a committed-transaction list that is a prefix of the original; never a panic, a non-prefix history, or a host differing from the twin of that prefix. Thorough adds every single-bit flip and record-level edit on small logs. Two open known findings (spliced transactions, deleted leading transactions) are reported as KNOWN-FINDING lines.",
-        "For whole-record edits L1 and L2 coincide (records keep a valid outer digest); L3 forgery (recomputed inner checksums) is not generated; hang detection relies on bounded inputs.",
+        "Logs produced by crash-free C10 workloads (1-12 transactions, ledger, optional manifest) damaged on a copy by one explicit plan entry each: bit flips, aligned zeroing, truncation plus garbage, in-record payload flips with and without recomputed outer digest, record and transaction delete / duplicate / adjacent swap, cross-log record and transaction transplants from a donor log generated in the same scenario (incl. same-shaped multi-epoch donors spliced at the same position), commit markers re-labelled to a transaction kind of another append authority with recomputed digests, ledger and manifest flips and substitution. Oracle on recover_wal_segment_bytes, recover_filesystem_store (both modes), doctor_filesystem_store, validate_filesystem_manifest and TrustedRuntimeHost::enable_runtime_wal: typed error / obstruction, or Ok with a committed-transaction list that is a prefix of the original; never a panic, a non-prefix history, or a host differing from the twin of that prefix. Thorough adds every single-bit flip and record-level edit on small logs. Two open known findings (spliced transactions, deleted leading transactions) are reported as KNOWN-FINDING lines; their classes are narrowed by shape (a foreign writer epoch inside the retained ledger range, or a hole in the middle of the log, is reported as a violation).",
+        "For whole-record edits L1 and L2 coincide (records keep a valid outer digest); L3 forgery (recomputed inner checksums) is generated only for commit markers re-labelled across append authorities (the frames then contradict the marker); hang detection relies on bounded inputs.",
         "deterministic simulation: storage corruption and cross-log splice injection on real logs, prefix-of-committed-history oracle",
         "DESIGN.md §5 C11",
     ),
@@ -82,8 +82,8 @@ CHECKS = {
     ),
     "C08": (
         "exploration",
-        "A multiset of intents (incl. exact duplicates, route aliases, same bytes with different kind or causal-parent set, unroutable targets) is delivered to fresh worlds under 3-9 schedules that share an epoch partition: any order within an epoch, 0-3 retries per envelope in its own or a later epoch, plain ingest and the ticketed submit path, eligibility changes, and a clean restart rebuilt through restore_witnessed_submission_persistence + restore_causal_runtime_history. Oracle: K-way equality of pending sets, step records, provenance entries and final fingerprints (arrival-order metadata masked narrowly), step-by-step RefRuntime (Accepted then Duplicate with the same submission id, batch = lowest ids up to the budget), at-most-once per (head, ingress id), ingress id = documented formula. Evidence, not proof.",
-        "Masked as arrival metadata: per-record submission_generation and the retained first-arrival route alias; inbox policy cannot be changed on a live head (no public access); restart is modelled without TrustedRuntimeHost (that is C10).",
+        "A multiset of intents (incl. exact duplicates, route aliases, same bytes with different kind or causal-parent set, unroutable targets) is delivered to fresh worlds under 3-9 schedules that share an epoch partition: any order within an epoch, 0-3 retries per envelope in its own or a later epoch, plain ingest and the ticketed submit path, eligibility changes, and a clean restart rebuilt through restore_witnessed_submission_persistence + restore_causal_runtime_history. Two further surfaces: a standalone HeadInbox driven by Ingest / SetPolicy / Admit tapes (policy changes between admissions) and the legacy graph inbox (Engine::ingest_intent / dispatch_next_intent / commit) with retries while pending and after the commit, each against its own reference and a reordered/retrying twin. Oracle: K-way equality of pending sets, step records, provenance entries and final fingerprints (arrival-order metadata masked narrowly), step-by-step RefRuntime (Accepted then Duplicate with the same submission id, batch = lowest ids up to the budget), at-most-once per (head, ingress id), ingress id = documented formula. Evidence, not proof.",
+        "Masked as arrival metadata: per-record submission_generation and the retained first-arrival route alias; inbox policy cannot be changed on a registered head (no public access), so policy changes run on a standalone HeadInbox; restart is modelled without TrustedRuntimeHost (that is C10).",
         "deterministic simulation: seeded message reordering, duplication (retries), delay and restart, K-way schedule equality + reference inbox model",
         "DESIGN.md §5 C08",
     ),
@@ -103,14 +103,14 @@ CHECKS = {
     ),
     "C16": (
         "exploration",
-        "Seeded tapes of deliver / pass / fork / checkpoint / observe over 1-3 worldlines: reads of every frame x projection pairing (valid and invalid), frontier / explicit / future ticks, unknown worldlines, builtin and authored plans, a registered data-driven contract query observer, budgets and rights, and observe_optic over every focus, coordinate (incl. full provenance coordinates with right and wrong commit hashes), aperture and budget shape; every historical request is re-issued after every later commit, fork and checkpoint. Oracle: runtime/provenance/engine fingerprints identical around every read; same request twice gives equal artifacts, ABI encodings and hashes; a Tick(t) reading equals the recorded facts of entry t and the replayed state, unchanged at every later time (observation-time fields only monotone); unservable requests get typed errors that name the request's own coordinate. No fault kind applies. Evidence, not proof.",
+        "Seeded tapes of deliver / pass / fork / checkpoint / observe over 1-3 worldlines: reads of every frame x projection pairing (valid and invalid), frontier / explicit / future ticks, unknown worldlines, builtin and authored plans, a registered data-driven contract query observer, budgets and rights, and observe_optic over every focus, coordinate (incl. full provenance coordinates with right and wrong commit hashes), aperture and budget shape; every historical request is re-issued after every later commit, fork and checkpoint. Oracle: runtime/provenance/engine fingerprints identical around every read; same request twice gives equal artifacts, ABI encodings and hashes; a Tick(t) reading equals the recorded facts of entry t and the replayed state, unchanged at every later time (observation-time fields only monotone); unservable requests get typed errors that name the request's own coordinate. Fault: in a third of the runs every first ask is also issued against an older copy of the provenance service next to the live runtime (retained history lags the runtime): a typed refusal or exactly the full-history reading. Evidence, not proof.",
         "Recorded-truth payloads are empty because the interpreter emits no materialization channels; contract / retained-evidence envelope parts are absent (no contract package installed); at most one fork per run.",
         "deterministic simulation: reads interleaved with commits and forks under seeded schedules, read-only fingerprints + coordinate-binding oracle",
         "DESIGN.md §5 C16",
     ),
     "C14": (
         "exploration",
-        "A generated honest tick plus one violator program (omits exactly one read/write access it performs, writes another instance, emits an instance op, optionally panics) placed at seeded canonical positions, work units and workers (claim tapes); the commit must unwind with the matching violation and leave the pre-state untouched; an unflagged omitted write is a violation exactly when the guarded location's observable content changed (attribution completeness). Seeded search; evidence, not proof.",
+        "A generated honest tick plus one violator program (omits exactly one read/write access it performs, writes another instance, emits an instance op, optionally panics) placed at seeded canonical positions, work units and workers (claim tapes), in ticks of 1-9 rewrites and (1 in 50) among 4096-5000 honest rewrites of one instance; the commit must unwind with the matching violation and leave the pre-state untouched; an unflagged omitted write is a violation exactly when the guarded location's observable content changed (attribution completeness). Seeded search; evidence, not proof.",
         "Requires enforcement compiled in (simulator builds warp-core with debug assertions); trusts the harness's conservative honest-footprint derivation and reference applier.",
         "deterministic simulation: fault injection of dishonest programs under seeded worker schedules, pre-state restoration oracle",
         "DESIGN.md §5 C14",
